@@ -103,11 +103,19 @@ func main() {
 		cb, _ := json.Marshal([]lib.Case{rp.Case})
 		os.WriteFile(cf, cb, 0o644)
 		out := filepath.Join(dir, "out.jsonl")
-		bin := bins[rp.Flavor]
+		fparts := strings.SplitN(rp.Flavor, ":", 2)
+		bin := bins[fparts[0]]
 		if bin == "" {
 			bin = os.Args[0]
 		}
 		cmd := exec.Command(bin, "child", rp.Property, cf, "0", "1", out, rp.Flavor, rp.Tier, "replay")
+		cmd.Env = os.Environ()
+		if p := lib.Lookup(rp.Property); p != nil {
+			cmd.Env = append(cmd.Env, p.ChildEnv...)
+		}
+		if len(fparts) == 2 {
+			cmd.Env = append(cmd.Env, strings.Split(fparts[1], ",")...)
+		}
 		cmd.Stdout = os.Stderr
 		cmd.Stderr = os.Stderr
 		err = cmd.Run()
